@@ -7,6 +7,7 @@ use swc_core::{
 };
 
 pub(crate) fn build_slot_helper(helper_name: Ident, is_vnode: Ident) -> FnDecl {
+    verif_point!("build_slot_helper");
     let arg = private_ident!("s");
 
     FnDecl {
